@@ -13,7 +13,7 @@ import (
 func init() {
 	Register(&PropDef{
 		ID: "C01", QuickRuns: 4800, Level: "exploration",
-		Rule: "one run = an association/session history of 1-2 peers into which 3-25 hostile datagrams are injected (random bytes; truncations; every message type the dispatcher handles and unsupported ones with 1-3 IE-level mutations: drop / duplicate / empty / retype / truncate / garble / IPv6-only address forms / corrupted flow descriptions; in states: first datagram on the listening socket, before/after association, with sessions, unknown SEID, after release). Monitors: any panic or Fatal of an agent task (attributed to the innermost repo frame); a valid Heartbeat Request sent afterwards on the same and on another association must be answered; at most one response-type datagram per injected datagram. Non-trivial = at least one accepted session operation or association plus at least one hostile datagram; distinct = different sequence of (state, message type, mutation kinds).",
+		Rule: "one run = an association/session history of 1-2 peers into which 3-25 hostile datagrams are injected (random bytes; truncations; every message type the dispatcher handles and unsupported ones with 1-3 IE-level mutations: drop / duplicate / empty / retype / truncate / garble / IPv6-only address forms / corrupted flow descriptions; in states: first datagram on the listening socket, before/after association, with sessions, unknown SEID, after release). In one run in four the agent itself opens the association towards the victim (cpiface.peers) and every transmission of its Association Setup Request is answered with a valid, rejected, truncated or IE-mutated response carrying the right sequence number. With heartbeats enabled (intervals 15 ms / 40 ms / 5 s) the victim may sit on the agent's Heartbeat Requests and answer them late, and repeats its Association Setup on the live association, so that responses meet requests the agent has meanwhile abandoned. Monitors: any panic or Fatal of an agent task (attributed to the innermost repo frame); a valid Heartbeat Request sent afterwards on the same and on another association must be answered; at most one response-type datagram per injected datagram. Non-trivial = at least one accepted session operation or association plus at least one hostile datagram; distinct = different sequence of (state, message type, mutation kinds).",
 		Assume: []string{"hostile generators are built on an independent TLV codec; 'answered' means within 5 virtual seconds after the agent is quiescent"},
 		Real: CommonReal, Simulated: CommonSim,
 		Scenario: scenarioC01,
@@ -293,14 +293,75 @@ func (h *hostile) datagram(p *Peer) (string, []byte) {
 func scenarioC01(r *Run) {
 	r.Conf = DefaultBESSConf()
 	r.Conf.EnableHBTimer = r.Ch.Choose(3, "hb") == 1
+	if r.Conf.EnableHBTimer {
+		// short intervals keep requests of the agent pending while hostile input arrives
+		r.Conf.HeartBeatInterval = []string{"5s", "40ms", "15ms"}[r.Ch.Choose(3, "hbi")]
+	}
 	r.Conf.CPIface.EnableUeIPAlloc = r.Ch.Choose(3, "uealloc-conf") != 1
 	r.DrawStrategy()
 	a := r.AddPeer()
 	b := r.AddPeer()
+	// In one run in four the agent itself opens the association towards the
+	// victim peer, whose answers to the agent's request are the hostile input.
+	initiated := r.Ch.Choose(4, "initiated") == 1
+	var hInit *hostile
+	initAnswers := 0
+	if initiated {
+		r.Conf.CPIface.Peers = []string{a.IP}
+		r.Conf.RespTimeout = []string{"2s", "100ms"}[r.Ch.Choose(2, "init-tout")]
+		a.OnAssocReq = func(req *message.AssociationSetupRequest) {
+			if hInit == nil {
+				return
+			}
+			h := hInit
+			resp := message.NewAssociationSetupResponse(req.SequenceNumber, ie.NewNodeID(a.NodeID, "", ""), ie.NewCause(ie.CauseRequestAccepted), ie.NewRecoveryTimeStamp(a.TS))
+			rejected := h.c(5, "init-cause") == 1
+			if rejected {
+				resp = message.NewAssociationSetupResponse(req.SequenceNumber, ie.NewNodeID(a.NodeID, "", ""), ie.NewCause(ie.CauseRequestRejected), ie.NewRecoveryTimeStamp(a.TS))
+			}
+			valid := false
+			b := Marshal(resp)
+			name := "AssociationSetupResponse(to agent's request)"
+			h.desc = nil
+			switch h.c(6, "init-kind") {
+			case 0: // valid
+				valid = true
+			case 1: // truncated
+				c := h.c(len(b), "init-cut")
+				b = b[:c]
+				name += fmt.Sprintf(" truncated@%d", c)
+			default: // IE-level mutations
+				if m, ok := ParsePFCP(b); ok {
+					n := 1 + h.c(2, "init-nmut")
+					for i := 0; i < n; i++ {
+						h.mutateTree(m)
+					}
+					b = m.Encode()
+					name += " " + strings.Join(h.desc, ",")
+				}
+			}
+			initAnswers++
+			r.Op("hostile[agent-initiated] %s (%d bytes)", name, len(b))
+			r.Skel("initiated:" + skelOf(name))
+			r.Fault("hostile-answer-to-agent-request")
+			a.SendRaw(b)
+			if valid && !rejected {
+				a.Associated = true
+			}
+		}
+	}
+	hInit = &hostile{r: r, g: NewGen(r)}
 	r.StartAgent()
 	if !r.AgentAlive() {
 		r.CheckNoPanics("C01")
 		return
+	}
+	if initiated {
+		r.Sim.RunFor(time.Duration(20+r.Ch.Choose(400, "init-wait")) * time.Millisecond)
+		if !r.AgentAlive() {
+			r.CheckNoPanics("C01")
+			return
+		}
 	}
 	g := NewGen(r)
 	h := &hostile{r: r, g: g}
@@ -311,16 +372,43 @@ func scenarioC01(r *Run) {
 		}
 	}
 	state := "unassociated"
+	// the victim may sit on the agent's heartbeats and answer them late (valid,
+	// merely slow): the answers then meet whatever state the association is in
+	var heldHB []uint32
+	holdHB := false
+	a.HBFilter = func(m *RxMsg) bool {
+		if holdHB {
+			heldHB = append(heldHB, m.Msg.Sequence())
+			return false
+		}
+		return true
+	}
 	n := 3 + r.Ch.Choose(23, "nhostile")
 	for k := 0; k < n && r.AgentAlive(); k++ {
 		// move the victim association's state along
-		switch r.Ch.Choose(6, "stateop") {
+		switch r.Ch.Choose(8, "stateop") {
 		case 1:
-			if !a.Associated {
+			if !a.Associated || r.Ch.Choose(3, "reassoc") == 1 {
+				// also on a live association: a control plane that restarted, or a retransmitted setup
 				if a.Associate() != nil {
 					state = "associated"
 					r.Accepted++
 				}
+			}
+		case 6:
+			if r.Conf.EnableHBTimer {
+				holdHB = !holdHB
+				r.Op("peer0 holds heartbeat answers: %v", holdHB)
+			}
+		case 7:
+			if len(heldHB) > 0 {
+				r.Op("peer0 answers %d held heartbeat(s) late", len(heldHB))
+				r.Fault("late-heartbeat-answer")
+				for _, seq := range heldHB {
+					a.SendMsg(message.NewHeartbeatResponse(seq, ie.NewRecoveryTimeStamp(a.TS)))
+				}
+				heldHB = nil
+				r.Sim.RunFor(5 * time.Millisecond)
 			}
 		case 2:
 			if a.Associated && len(a.Sessions) < 3 {
